@@ -39,9 +39,30 @@ fn snap(dbh: &Dbh, t: &str) -> Snap {
     s
 }
 
+/// (root_page, rightmost_hint) of the table's B-tree, read from page 0 of the table file (the
+/// file is a shared mapping of the engine, so the page cache shows the engine's current header)
+fn table_header(dir: &str, table: &str) -> Option<(u32, u32)> {
+    fn find(d: &std::path::Path, name: &str) -> Option<std::path::PathBuf> {
+        for e in std::fs::read_dir(d).ok()?.flatten() {
+            let p = e.path();
+            if p.is_dir() { if let Some(x) = find(&p, name) { return Some(x); } }
+            else if p.file_name().and_then(|f| f.to_str()) == Some(name) { return Some(p); }
+        }
+        None
+    }
+    let path = find(std::path::Path::new(dir), &format!("{table}.tbd"))?;
+    use std::io::Read;
+    let mut buf = vec![0u8; 128];
+    std::fs::File::open(path).ok()?.read_exact(&mut buf).ok()?;
+    let h = turdb::storage::TableFileHeader::from_bytes(&buf).ok()?;
+    Some((h.root_page(), h.rightmost_hint()))
+}
+
 fn err_kind(msg: &str) -> &'static str {
     let m = msg.to_lowercase();
-    if m.contains("primary key") { "pk" }
+    if m.contains("not enough free space") { "nospace" }
+    else if m.contains("out of bounds") { "pagebounds" }
+    else if m.contains("primary key") { "pk" }
     else if m.contains("unique") { "unique" }
     else if m.contains("not null") { "notnull" }
     else if m.contains("check") { "check" }
@@ -81,7 +102,9 @@ struct Run<'a> {
 
 struct Epoch { dbh: Dbh, sc: Schema, stmts: Vec<StmtText>, snap: Snap, known: Known,
     /// a successful UPDATE assigned a UNIQUE / PRIMARY KEY column in this epoch: the engine's unique index is stale from then on
-    uidx_stale: bool }
+    uidx_stale: bool,
+    /// a TRUNCATE ran in this epoch while the table's B-tree had split (root page moved)
+    trunc_multileaf: bool }
 
 impl<'a> Run<'a> {
     fn new_epoch(&mut self, sc: &Schema, load: &[Vec<String>]) -> Epoch {
@@ -91,21 +114,24 @@ impl<'a> Run<'a> {
         self.model.ask("reset");
         let r = self.model.ask(&sc.model_create());
         assert!(r == "ok", "model create failed: {r}");
-        let mut ep = Epoch { dbh, sc: sc.clone(), stmts: vec![], snap: Snap { rows: vec![], count: Some(0), err: None }, known: Known::default(), uidx_stale: false };
-        // load rows by ordinary INSERTs; rows the spec rejects (engine state was invalid) are dropped
-        for row in load.iter().take(10) {
-            let vs: Option<Vec<V>> = row.iter().map(|c| cell_to_v(c)).collect();
-            let Some(vs) = vs else { continue };
-            if vs.len() != COLS.len() { continue; }
-            let st = Dml::Insert { cols: None, rows: vec![vs], returning: false }.text(sc);
+        let mut ep = Epoch { dbh, sc: sc.clone(), stmts: vec![], snap: Snap { rows: vec![], count: Some(0), err: None }, known: Known::default(), uidx_stale: false, trunc_multileaf: false };
+        // load rows by ordinary INSERTs (chunks of up to 50 rows per statement; row by row when the
+        // spec rejects a chunk, dropping the rows it rejects: the engine state was invalid then)
+        let vals: Vec<Vec<V>> = load.iter().filter_map(|row| { let vs: Option<Vec<V>> = row.iter().map(|c| cell_to_v(c)).collect(); vs.filter(|v| v.len() == COLS.len()) }).collect();
+        for chunk in vals.chunks(50) {
+            let st = Dml::Insert { cols: None, rows: chunk.to_vec(), returning: false }.text(sc);
             let probe = self.model.ask(&format!("stmt {}", st.sx.as_ref().unwrap()));
-            if !probe.starts_with("affected 1") { continue; }
-            match ep.dbh.exec(&st.sql) {
-                Out::Affected(1, _) => ep.stmts.push(st),
-                _ => {
-                    // engine refused a row the spec accepts: give up on exact loading, align the models below
-                    ep.stmts.push(st);
-                }
+            if probe.starts_with(&format!("affected {} ", chunk.len())) {
+                let _ = ep.dbh.exec(&st.sql);
+                ep.stmts.push(st);
+                continue;
+            }
+            for vs in chunk {
+                let st = Dml::Insert { cols: None, rows: vec![vs.clone()], returning: false }.text(sc);
+                let probe = self.model.ask(&format!("stmt {}", st.sx.as_ref().unwrap()));
+                if !probe.starts_with("affected 1") { continue; }
+                let _ = ep.dbh.exec(&st.sql);
+                ep.stmts.push(st);
             }
         }
         ep.snap = snap(&ep.dbh, &sc.name);
@@ -134,12 +160,14 @@ impl<'a> Run<'a> {
         let kind = st.kind();
         let verb = st.verb();
         let before = ep.snap.clone();
+        let split_before = table_header(&ep.dbh.dir, &ep.sc.name).map(|h| h.0 != 1);
+        if split_before.is_none() { self.rep.count("table_header_unreadable"); }
         let out = ep.dbh.exec(&st.sql);
         let resp = st.sx.as_ref().map(|sx| self.model.ask(&format!("stmt {sx}")));
         let after = snap(&ep.dbh, &ep.sc.name);
         ep.stmts.push(st.clone());
         let case = case_line(&ep.sc, &ep.stmts);
-        let multi = if st.has_tag("multi") { "multi" } else if verb == "insert" { "single" } else if st.has_tag("nowhere") { "allrows" } else { "where" };
+        let multi = if verb == "truncate" { "all" } else if st.has_tag("multi") { "multi" } else if verb == "insert" { "single" } else if st.has_tag("nowhere") { "allrows" } else { "where" };
         self.rep.count(&format!("stmt_{kind}"));
         if st.returning() { self.rep.count("with_returning"); }
         let mut diverged = false;
@@ -171,8 +199,7 @@ impl<'a> Run<'a> {
             if !(rows_same && count_same) {
                 diverged = true;
                 if self.mode == Mode::Atomic {
-                    let bigc = ep.known.cells.max(before.rows.len()).max(after.rows.len()) >= 8;
-                    let sig = format!("failed-stmt-effect:{verb}:{}{}:{multi}:rows={} count={}{}", if is_panic { "panic-" } else { "" }, err_kind(&eng_err), if rows_same { "same" } else { "changed" }, if count_same { "same" } else { "changed" }, if bigc { ":cells>=8" } else { "" });
+                    let sig = format!("failed-stmt-effect:{verb}:{}{}:{multi}:rows={} count={}", if is_panic { "panic-" } else { "" }, err_kind(&eng_err), if rows_same { "same" } else { "changed" }, if count_same { "same" } else { "changed" });
                     self.rep.oracle_fail(case.clone(), format!("`{}` returned Err ({}) but the table changed: before {} rows [{}] COUNT(*)={:?}; after {} rows [{}] COUNT(*)={:?}", st.sql, eng_err.chars().take(120).collect::<String>(), before.rows.len(), show_rows(&before.rows).chars().take(400).collect::<String>(), before.count, after.rows.len(), show_rows(&after.rows).chars().take(400).collect::<String>(), after.count), sig);
                 } else { self.rep.count("c06_effect_seen_not_reported_here"); }
             }
@@ -183,17 +210,19 @@ impl<'a> Run<'a> {
             let spec_aff = parse_affected(&m.spec);
             let spec_ok = spec_aff.is_some();
             let dead: u64 = m.dead;
-            let big = m.cells_before.max(m.cells_after) >= 8;
             ep.known.cells = m.cells_after;
-            if big { self.rep.count("stmts_on_8_or_more_records"); }
+            let cmax = m.cells_before.max(m.cells_after);
+            self.rep.count(if cmax < 8 { "stmts_on_0-7_records" } else if cmax < 64 { "stmts_on_8-63_records" } else if cmax < 256 { "stmts_on_64-255_records" } else { "stmts_on_256+_records" });
             let key_related = spec_ok != eng_ok && (if !spec_ok { m.why.starts_with("unique") || m.why.starts_with("pk-") } else { matches!(err_kind(&eng_err), "unique" | "pk") });
-            let ctxflag = if big { "cells>=8" } else if dead > 0 { "tombstone-match" } else if ep.uidx_stale && key_related { "stale-uidx" } else if st.has_tag("nulldef") { "nulldef" } else if st.has_tag("mixedset") { "mixedset" } else { "plain" };
+            let nospace = !eng_ok && matches!(err_kind(&eng_err), "nospace" | "pagebounds");
+            let ctxflag = if ep.trunc_multileaf { "after-multileaf-truncate" } else if dead > 0 { "tombstone-match" } else if ep.uidx_stale && key_related { "stale-uidx" } else if st.has_tag("nulldef") { "nulldef" } else if st.has_tag("mixedset") { "mixedset" } else { "plain" };
             if dead > 0 { self.rep.count(&format!("tombstone_match_{kind}")); }
             let spec_rows: Vec<Vec<String>> = match parse_model_rows(&self.model.ask(&format!("dump {}", ep.sc.name))) { Ok(r) => r, Err(e) => panic!("model dump: {e}") };
 
             // ---------------- M-code correspondence
             let inexact = false;
-            if big { self.rep.count("mcode_not_compared_cells>=8_(C30_leaf_search)"); }
+            if ep.trunc_multileaf { self.rep.count("mcode_not_compared_after_multileaf_truncate"); }
+            else if nospace { self.rep.count("mcode_not_compared_btree_page_level_error"); }
             else if !inexact {
                 let m_ok = m.mres.starts_with("ok ");
                 let m_aff: usize = m.mres.strip_prefix("ok ").and_then(|x| x.split(' ').next()).and_then(|x| x.parse().ok()).unwrap_or(0);
@@ -247,39 +276,41 @@ impl<'a> Run<'a> {
             }
         }
         if eng_ok && verb == "update" && ((st.has_tag("setu") && ep.sc.uq) || (st.has_tag("setid") && ep.sc.pk)) { ep.uidx_stale = true; }
-        if eng_ok && verb == "truncate" { ep.uidx_stale = false; }
+        if eng_ok && verb == "truncate" { ep.uidx_stale = false; if split_before == Some(true) { ep.trunc_multileaf = true; self.rep.count("truncate_of_multileaf_table"); } }
+        if split_before == Some(true) { self.rep.count("stmts_on_multileaf_table"); }
         ep.snap = after;
         Self::learn(ep);
         diverged
     }
 
-    fn history(&mut self, sc: &Schema, rng: &mut Rng, len: usize, big: bool) {
+    /// `preload` rows are inserted first (multi-row INSERTs of up to 50 rows, ordinary statements of the history)
+    fn history(&mut self, sc: &Schema, rng: &mut Rng, len: usize, preload: usize) {
         let gen = DmlGen { atomic_bias: self.mode == Mode::Atomic };
         let mut ep = self.new_epoch(sc, &[]);
         self.rep.count(&format!("schema_{}", sc.short()));
-        self.rep.count(if big { "histories_unbounded_size" } else { "histories_below_8_records" });
+        self.rep.count(if preload == 0 { "histories_grown_from_empty" } else if preload < 64 { "histories_preloaded_8-63_rows" } else { "histories_preloaded_400+_rows" });
+        let restart = |this: &mut Self, ep: Epoch| -> Epoch {
+            this.rep.count("epoch_restarts");
+            let rows = ep.snap.rows.clone();
+            let sh = ep.known.shifts.get();
+            drop(ep);
+            let ep2 = this.new_epoch(sc, &rows);
+            ep2.known.shifts.set(sh);
+            ep2
+        };
+        let mut left = preload;
+        while left > 0 {
+            let n = left.min(50);
+            left -= n;
+            let d = gen.bulk(rng, sc, &ep.known, n);
+            let st = d.text(sc);
+            if self.exec_one(&mut ep, &st) { ep = restart(self, ep); }
+        }
         for i in 0..len {
-            if !big && ep.known.cells >= 7 && ep.known.cells > ep.snap.rows.len() {
-                // compaction: continue in a fresh database holding the live rows (drops tombstones)
-                self.rep.count("compactions");
-                let rows = ep.snap.rows.clone();
-                let sh = ep.known.shifts.get();
-                drop(ep);
-                ep = self.new_epoch(sc, &rows);
-                ep.known.shifts.set(sh);
-            }
-            ep.known.room = if big { 1000 } else { 7usize.saturating_sub(ep.known.cells) };
             let d = gen.next(rng, sc, &ep.known);
             let st = d.text(sc);
             if i == 3 && self.rep.samples.len() < 12 && self.rep.evaluations % 5 == 0 { self.rep.sample(format!("{} ;; … ;; {}", sc.create_sql(), st.sql)); }
-            if self.exec_one(&mut ep, &st) {
-                self.rep.count("epoch_restarts");
-                let rows = ep.snap.rows.clone();
-                let sh = ep.known.shifts.get();
-                drop(ep);
-                ep = self.new_epoch(sc, &rows);
-                ep.known.shifts.set(sh);
-            }
+            if self.exec_one(&mut ep, &st) { ep = restart(self, ep); }
         }
     }
 
@@ -343,10 +374,27 @@ fn scripted() -> Vec<(Schema, Vec<Dml>)> {
         v.push((sc(pk, true, false, true, false), vec![ins(seed_rows(8), false), Dml::Update { sets: vec![(3, lit(900))], whr: idcmp(Op::Ge, 7), returning: false }]));
         // multi-row UPDATE whose LAST row violates CHECK (c = 4 - id: rows 1..3 pass, row 4 fails), NOT NULL on every row, duplicate key
         v.push((sc(pk, true, false, true, true), vec![ins(seed_rows(4), false), Dml::Update { sets: vec![(1, lit(0)), (4, E::Bin(Op::Sub, Box::new(lit(4)), Box::new(E::Col(0))))], whr: None, returning: false }, Dml::Update { sets: vec![(4, E::Bin(Op::Sub, Box::new(lit(4)), Box::new(E::Col(0))))], whr: idcmp(Op::Ge, 2), returning: true }]));
+        // a table of 400 rows (several B-tree leaves): in-place updates, range delete + re-delete, point statements,
+        // duplicate keys against stored rows, failing multi-row INSERT
+        let load = |n: i64| -> Vec<Dml> { seed_rows(n).chunks(50).map(|c| ins(c.to_vec(), false)).collect() };
+        let with = |mut a: Vec<Dml>, b: Vec<Dml>| -> Vec<Dml> { a.extend(b); a };
+        v.push((sc(pk, true, false, true, false), with(load(400), vec![
+            Dml::Update { sets: vec![(1, lit(0))], whr: idcmp(Op::Le, 200), returning: false },
+            Dml::Update { sets: vec![(4, lit(7))], whr: idcmp(Op::Eq, 333), returning: true },
+            Dml::Delete { whr: idcmp(Op::Eq, 17), returning: true },
+            ins(vec![row(17, 1, vt("x"), vi(1700), vi(1))], true),
+            ins(vec![row(401, 1, vt("x"), vi(100), vi(1))], false),
+            Dml::Delete { whr: idcmp(Op::Gt, 390), returning: true },
+            Dml::Delete { whr: idcmp(Op::Ge, 380), returning: false }])));
+        v.push((sc(pk, true, false, true, true), with(load(400), vec![
+            ins(vec![row(500, 1, vt("x"), V::Null, vi(1)), row(501, 1, vt("x"), vi(100), vi(1))], false)])));
+        // TRUNCATE of a multi-leaf table, then INSERT: the new row must be visible
+        v.push((sc(pk, true, false, false, false), with(load(400), vec![Dml::Truncate, ins(seed_rows(2), true)])));
+        // UPDATE that makes every record of a full leaf longer
+        v.push((sc(pk, true, false, false, false), with(load(400), vec![Dml::Update { sets: vec![(2, E::Lit(vt("a considerably longer text value")))], whr: None, returning: false }])));
         // failing multi-row INSERTs: the k-th row violates each constraint kind (stored row / earlier row of the statement)
-        for big in [false, true] {
-            let n = if big { 8 } else { 2 };
-            let base = |x: i64| 20 + x;
+        for n in [2i64, 9, 40] {
+            let base = |x: i64| 100 + x;
             v.push((sc(pk, true, false, true, true), vec![ins(seed_rows(n), false), ins(vec![row(base(1), 1, vt("n"), V::Null, vi(1)), row(base(2), 1, vt("n"), vi(100), vi(1)), row(base(3), 1, vt("n"), V::Null, vi(1))], false)]));
             v.push((sc(pk, true, false, true, true), vec![ins(seed_rows(n), false), ins(vec![row(base(1), 1, vt("n"), vi(7700), vi(1)), row(base(2), 1, vt("n"), vi(7700), vi(1))], true)]));
             v.push((sc(pk, true, false, true, true), vec![ins(seed_rows(n), false), ins(vec![row(base(1), 1, vt("n"), V::Null, vi(1)), row(base(2), 1, vt("n"), V::Null, vi(0))], false)]));
@@ -370,7 +418,7 @@ fn run_mode(ctx: &Ctx, mode: Mode) -> Report {
         name,
         if mode == Mode::Dml {
             "histories of 20-40 INSERT (single/multi-row, with/without column list, defaults) / UPDATE (constants, expressions over NOT NULL \
-             columns, key shifts, with/without WHERE) / DELETE / TRUNCATE statements, ~1/3 with RETURNING *, over one table whose constraint set \
+             columns, key shifts, with/without WHERE) / DELETE / TRUNCATE statements, ~1/3 with RETURNING *, over one table (grown from empty, pre-loaded with 8-60 rows, or with 400-500 rows = several B-tree leaves) whose constraint set \
              (PRIMARY KEY, NOT NULL, DEFAULT, UNIQUE, CHECK) is drawn per history; predicates are comparisons / IN / BETWEEN / AND / OR over NOT NULL \
              integer columns only (NULL-sensitive WHERE logic is C14's subject), and re-target ids deleted earlier (re-delete, update-after-delete, \
              re-insert); arithmetic SET expressions only over NOT NULL columns. After every statement: SELECT * (bag), COUNT(*), affected, RETURNING vs the spec \
@@ -401,8 +449,12 @@ fn run_mode(ctx: &Ctx, mode: Mode) -> Report {
         let sc = Schema { name: "t".into(), pk: bits & 1 != 0, nn: bits & 2 != 0, df: bits & 4 != 0, uq: bits & 8 != 0, ck: bits & 16 != 0 };
         let len = 20 + rng.below(21) as usize;
         let mut hr = rng.fork();
-        let big = h % 5 == 4;
-        run.history(&sc, &mut hr, len, big);
+        // size classes: most histories grow from empty (typically 0..40 records incl. tombstones), every
+        // 5th starts from 8..60 rows, and a few from 400..500 rows (more than one B-tree leaf)
+        let nlarge = if ctx.thorough { 12 } else { 3 };
+        let preload = if h >= nhist - nlarge { 400 + hr.below(101) as usize } else if h % 5 == 4 { 8 + hr.below(53) as usize } else { 0 };
+        let len = if preload >= 400 { 12 + hr.below(8) as usize } else { len };
+        run.history(&sc, &mut hr, len, preload);
     }
     let reqs = run.model.requests;
     let ne = run.nepoch;
